@@ -193,6 +193,22 @@ func newSUT(p *pki, mode string, rule bool, pw string) *sut {
 	return s
 }
 
+// startSUT builds a server on kernel-assigned ports and starts it; another process may take a port between the probe and
+// the bind (the repository's own tests, other shards): such a start is repeated on fresh ports.
+func startSUT(p *pki, mode string, rule bool, pw string) (*sut, error) {
+	var s *sut
+	var err error
+	for try := 0; try < 6; try++ {
+		s = newSUT(p, mode, rule, pw)
+		if err = s.srv.Start(); err == nil || !strings.Contains(err.Error(), "address already in use") {
+			return s, err
+		}
+		s.srv.Stop()
+		time.Sleep(20 * time.Millisecond)
+	}
+	return s, err
+}
+
 func must(err error) {
 	if err != nil {
 		panic(err)
@@ -368,8 +384,8 @@ func modeTLSGate(args []string) {
 		if cfgName == "rule+pw" {
 			pw = "s3cret"
 		}
-		s := newSUT(p, "both", rule, pw)
-		if err := s.srv.Start(); err != nil {
+		s, err := startSUT(p, "both", rule, pw)
+		if err != nil {
 			emit(map[string]any{"error": "start: " + err.Error(), "config": cfgName})
 			continue
 		}
@@ -636,11 +652,22 @@ func modeChurn(args []string) {
 	modes := []string{"fin-boundary", "fin-mid", "rst", "quit", "malformed", "stops-reading", "tls-polite", "tls-rst", "tls-handshake-fail", "tls-rejected-cert", "tls-stall"}
 	// one ending mode at a time (attributable), then all mixed
 	runBatch := func(name string, pick func(i int) string, n int, inflight int, stopWithOpen bool) {
-		s := newSUT(p, "both", true, "")
-		runtime.GC()
-		g0 := runtime.NumGoroutine()
-		fd0 := fdTargets()
-		if err := s.srv.Start(); err != nil {
+		var s *sut
+		var err error
+		var g0 int
+		var fd0 map[string]string
+		for try := 0; try < 6; try++ { // a port taken by another process between probe and bind: start again on fresh ports
+			s = newSUT(p, "both", true, "")
+			runtime.GC()
+			g0 = runtime.NumGoroutine()
+			fd0 = fdTargets()
+			if err = s.srv.Start(); err == nil || !strings.Contains(err.Error(), "address already in use") {
+				break
+			}
+			s.srv.Stop()
+			time.Sleep(20 * time.Millisecond)
+		}
+		if err != nil {
 			emit(churnResult{Mode: name, Note: "start: " + err.Error()})
 			return
 		}
@@ -964,8 +991,8 @@ func modeRaceStress(args []string) {
 	warmUp()
 	p := newPKI()
 	defer p.cleanup()
-	s := newSUT(p, "both", true, "")
-	if err := s.srv.Start(); err != nil {
+	s, err := startSUT(p, "both", true, "")
+	if err != nil {
 		fmt.Fprintln(os.Stderr, "start:", err)
 		os.Exit(3)
 	}
